@@ -53,7 +53,11 @@ def gen_pub(rng, tier, n):
         rec, prec = 1, 500000 + rng.randrange(1000)
         for _ in range(rng.randint(3, 14)):
             x = rng.random()
-            if x < 0.45:
+            if prec % 1000 == 999:
+                prec += 1          # (numbers ending in 999 are the ones the validation hook rejects)
+            if x < 0.06:
+                lines.append("pubhookpanic %d" % (prec // 1000 * 1000 + 999)); prec = prec // 1000 * 1000 + 1000
+            elif x < 0.45:
                 lines.append("pub %d" % prec); prec += 1
             elif x < 0.55:
                 lines.append("replaypub %d" % prec); prec += 1
@@ -166,7 +170,7 @@ def gen_flaky(rng, tier, n):
     cases = []
     for _ in range(n):
         lines = ["kind ds chunk=0"]
-        prec = 500000 + rng.randrange(1000)
+        prec = 500000 + rng.randrange(900)
         for _ in range(rng.randint(2, 8)):
             x = rng.random()
             if x < 0.4:
@@ -239,7 +243,7 @@ def property_fails(prop, lines, impl, model):
     impl, model = normalize(lines, impl, model)
     keep = {"C10": ("append", "read", "save", "load", "use", "replay", "drop", "raceappend", "streamtwice", "appendnil"),
             "C11": ("replay", "busreplay", "nestedreplay"),
-            "C09": ("pub", "replaypub", "read"), "C03": ("pub", "replaypub", "read"),
+            "C09": ("pub", "replaypub", "read", "pubhookpanic"), "C03": ("pub", "replaypub", "read", "pubhookpanic"),
             "C13": ("pub", "pubflaky", "read")}.get(prop, ("replay",))
     a = [l for l in (impl or ["<none>"]) if l.startswith("!") or l.split(" ", 1)[0] in keep]
     b = [l for l in (model or ["<none>"]) if l.startswith("!") or l.split(" ", 1)[0] in keep]
